@@ -186,8 +186,9 @@ def riffle(sym, n, sp):
     sym.check(sorted(ids(out)) == list(range(n)), "Riffle: output is not a permutation of the input")
     same_content(sym, out, inp, 'riffle')
     seed = sym.choice('seed', [0,1,5])
-    a = ids(ef.Riffle(sp, seed).filter(iter(inp))); b = ids(ef.Riffle(sp, seed).filter(iter(inp)))
-    sym.check(a == b, "Riffle: order not determined by the seed")
+    f1 = ef.Riffle(sp, seed)
+    a = ids(f1.filter(iter(inp))); a2 = ids(f1.filter(iter(inp))); b = ids(ef.Riffle(sp, seed).filter(iter(inp)))
+    sym.check(a == b and a == a2, "Riffle: order not determined by the seed (same instance read twice / a second instance)")
 
 # ---------------------------------------------------------------------------------------------------
 def bound_menu(sym, name, hi):
@@ -341,8 +342,9 @@ class _null:
 def reservoir_seed(sym, n):
     inp = make_interactions(sym, n, 'simulated', 'none')
     count = sym.choice('count', [1,2,3]); seed = sym.choice('seed', [0,1,5])
-    a = ids(ef.Reservoir(count, seed=seed).filter(iter(inp))); b = ids(ef.Reservoir(count, seed=seed).filter(iter(inp)))
-    sym.check(a == b, "Reservoir: sample not determined by the seed")
+    f1 = ef.Reservoir(count, seed=seed)
+    a = ids(f1.filter(iter(inp))); a2 = ids(f1.filter(iter(inp))); b = ids(ef.Reservoir(count, seed=seed).filter(iter(inp)))
+    sym.check(a == b and a == a2, "Reservoir: sample not determined by the seed (same instance read twice / a second instance)")
     sym.check(len(a) == min(count,n) and len(set(a)) == len(a), "Reservoir: min(n,N) distinct items")
 
 # ---------------------------------------------------------------------------------------------------
